@@ -164,6 +164,8 @@ pub fn profile() -> Profile {
     p.restart_replaces = false;
     p.p_mut = 20;
     p.lead_blocks = 8;
+    p.kind_w[7] = 4;
+    p.low_dosc_start = true;
     p
 }
 
